@@ -2,7 +2,10 @@
 from fractions import Fraction as Fr
 import itertools
 
+import os
+
 from harness import common as C
+from translate import c17 as T
 
 ID = 'C17'
 PROPS_V = 'C17/Props.v'
@@ -31,6 +34,19 @@ ASSUMPTIONS = [
     'floating point: values compared at 1e-12 relative; thresholds are either hit exactly (exact dyadic arithmetic) or '
     'missed by >= 1e-6 relative',
 ]
+
+def translate(ctx):
+    res = {}
+    for name, (text, info) in T.generate(C.REPO).items():
+        path = os.path.join(C.COQ, 'Generated', name + '.v')
+        if text is not None:
+            info['changed'] = C.write_if_changed(path, text)
+        else:
+            info['note'] = ('source shape not recognised; the previous Generated/%s.v is kept and the correspondence run '
+                            'alone ties the model to the code' % name)
+        res[name] = info
+    return res
+
 
 HEADER = '''From Coq Require Import ZArith QArith List Bool. Import ListNotations.
 From PV Require Import C17.Model. Open Scope Q_scope.'''
